@@ -22,7 +22,7 @@ ASSUMPTIONS = [
     "rule names and ids are unique within a rule set (a later duplicate replaces an earlier one in the implementation's tables: modelled, not generated)",
     "the test backend's correlation templates are used to convert correlation rules",
 ]
-PATHS = ["from_yaml", "from_dicts", "merge", "load_ruleset", "remerge"]
+PATHS = ["from_yaml", "from_dicts", "merge", "load_ruleset", "remerge", "collect"]
 
 
 def rid(i):
@@ -114,6 +114,15 @@ def load(docs, path, tag):
         a = SigmaCollection.from_dicts(copy.deepcopy(docs[:h]), resolve_references=False)
         b = SigmaCollection.from_dicts(copy.deepcopy(docs[h:]), resolve_references=False) if docs[h:] else None
         return SigmaCollection.merge([c for c in (a, b) if c is not None])
+    if path == "collect":
+        # loaded with error collection; every correlation rule carries an unrelated, collected error (an invalid status): its
+        # references are resolved all the same
+        import copy
+        ds = copy.deepcopy(docs)
+        for d in ds:
+            if "correlation" in d:
+                d["status"] = "bogus"
+        return SigmaCollection.from_dicts(ds, collect_errors=True)
     if path == "remerge":
         # merged collections, where the collection holding the correlation rules was merged (and so resolved) once before
         # with OTHER rule objects of the same names/ids: the second merge must resolve against the collection at hand
@@ -146,6 +155,10 @@ def run_impl(case):
         coll = load(docs, case["path"], tag)
     except Exception as e:
         return {"outcome": outcome_of_exception(e), "stage": "load", "msg": str(e)[:120]}
+    if case["path"] == "collect":        # with error collection "reported at load time" means: among the collected errors
+        nf = [e for e in coll.errors if type(e).__name__ == "SigmaRuleNotFoundError"]
+        if nf:
+            return {"outcome": outcome_of_exception(nf[0]), "stage": "load", "msg": str(nf[0])[:120]}
     titles = [d["title"] for d in docs]
     try:
         order = [titles.index(r.title) for r in coll.rules]
